@@ -126,5 +126,5 @@ Lemma spec_status_ext : forall c c',
   hdeps c' = hdeps c -> order c' = order c -> oc c' = oc c -> forall t, spec_status c' t = spec_status c t.
 Proof.
   intros c c' H1 H2 H3 t. unfold spec_status. rewrite H2. destruct (order c); auto.
-  apply spec_along_ext; auto.
+  rewrite (spec_along_ext c c'); auto.
 Qed.
